@@ -14,6 +14,8 @@
 
 package mapping
 
+import "fmt"
+
 type customAnalysis struct {
 	CharFilters     map[string]map[string]interface{} `json:"char_filters,omitempty"`
 	Tokenizers      map[string]map[string]interface{} `json:"tokenizers,omitempty"`
@@ -46,6 +48,15 @@ func (c *customAnalysis) registerAll(i *IndexMappingImpl) error {
 			errs = []error{}
 			for name := range todo {
 				config := c.Tokenizers[name]
+				// a tokenizer that wraps another custom tokenizer must wait for it: looking
+				// the wrapped name up now would instantiate a built-in tokenizer of that
+				// name and make the custom definition fail as "already defined"
+				if dep, ok := config["tokenizer"].(string); ok && dep != name {
+					if _, pending := todo[dep]; pending {
+						errs = append(errs, fmt.Errorf("tokenizer '%s' wraps tokenizer '%s' which could not be registered", name, dep))
+						continue
+					}
+				}
 				_, err := i.cache.DefineTokenizer(name, config)
 				if err != nil {
 					errs = append(errs, err)
